@@ -221,7 +221,7 @@ pub fn machines(opts: &Opts) -> Vec<crate::machine::MCfg> {
 
 pub fn explore(opts: &Opts) -> Explored {
     let mut local = explore_iff(opts);
-    let _ = (Program { leaves: vec![], nodes: vec![], retrack: vec![] }, RErr::Refuse);
+    let _ = (Program { leaves: vec![], nodes: vec![], retrack: vec![], frozen: Vec::new(), dropped: Vec::new() }, RErr::Refuse);
     let (ml, stats) = crate::checks::c10::run_all(opts, machines(opts));
     local.merge(ml);
     Explored {
